@@ -16,6 +16,7 @@ LEAN = os.path.join(ROOT, 'lean')
 BUILD = os.path.join(ROOT, 'build')
 EVID = os.path.join(ROOT, 'evidence')
 NPROC = int(os.environ.get('VERIF_JOBS', '16'))
+IMPL_TIMEOUT = int(os.environ.get('VERIF_IMPL_TIMEOUT', '900'))
 
 import props  # per-property configuration
 
@@ -174,7 +175,15 @@ def run_impl(exe, lines, env_extra=None, wrapper=()):
         out_all = []
         pos = 0
         while pos < len(ch):
-            p = subprocess.run(list(wrapper) + [exe], input='\n'.join(ch[pos:]) + '\n', stdout=subprocess.PIPE, stderr=subprocess.PIPE, text=True, env=env)
+            try:
+                p = subprocess.run(list(wrapper) + [exe], input='\n'.join(ch[pos:]) + '\n', stdout=subprocess.PIPE, stderr=subprocess.PIPE, text=True, env=env, timeout=IMPL_TIMEOUT)
+            except subprocess.TimeoutExpired as e:
+                so = e.stdout.decode() if isinstance(e.stdout, bytes) else (e.stdout or '')
+                out = so.split('\n')
+                if out and out[-1] == '': out.pop()
+                out = out[:len(ch) - pos - 1]
+                out_all += out; out_all.append('TIMEOUT after %ds' % IMPL_TIMEOUT); pos += len(out) + 1
+                continue
             out = p.stdout.split('\n')
             if out and out[-1] == '': out.pop()
             if len(out) >= len(ch) - pos:
